@@ -9,11 +9,14 @@
 package main
 
 import (
+	"bytes"
 	"encoding/binary"
 	"fmt"
 	"sort"
 	"strings"
 	"sync"
+
+	"golang.org/x/crypto/chacha20poly1305"
 
 	"github.com/postalsys/muti-metroo/internal/crypto"
 	"github.com/postalsys/muti-metroo/verifharness/vh"
@@ -63,6 +66,8 @@ func newPair() (*crypto.SessionKey, *crypto.SessionKey, error) {
 
 // storm: g goroutines x m Encrypt calls on sk; returns every ciphertext's nonce.
 func storm(sk *crypto.SessionKey, g, m, plen int, start <-chan struct{}, wg *sync.WaitGroup, out *[][]byte, errs *[]string, mu *sync.Mutex) {
+	kb := sk.Key()
+	aead, _ := chacha20poly1305.New(kb[:])
 	for i := 0; i < g; i++ {
 		wg.Add(1)
 		go func(i int) {
@@ -84,6 +89,16 @@ func storm(sk *crypto.SessionKey, g, m, plen int, start <-chan struct{}, wg *syn
 					*errs = append(*errs, fmt.Sprintf("encrypt: err=%v len=%d", err, len(ct)))
 					mu.Unlock()
 					return
+				}
+				// the nonce on the wire must be the nonce the AEAD was given (and no
+				// associated data): open the frame ourselves with exactly that
+				if aead != nil {
+					if got, oerr := aead.Open(nil, ct[:12], ct[12:], nil); oerr != nil || !bytes.Equal(got, pt) {
+						mu.Lock()
+						*errs = append(*errs, fmt.Sprintf("aead-args: ciphertext with wire nonce %x does not open under (session key, wire nonce, no associated data): %v", ct[:12], oerr))
+						mu.Unlock()
+						return
+					}
 				}
 				local = append(local, append([]byte(nil), ct[:12]...))
 			}
@@ -122,7 +137,11 @@ func main() {
 		close(start)
 		wg.Wait()
 		for _, e := range errs {
-			c.Fail("encrypt-error", e, r)
+			if strings.HasPrefix(e, "aead-args:") {
+				c.Fail("aead-nonce-differs-from-wire-nonce", e+" — the wire prefixes are distinct but the nonces actually used for sealing are not known to be", r)
+			} else {
+				c.Fail("encrypt-error", e, r)
+			}
 		}
 		// ---- monitor: no two payloads sealed under the same key and nonce ----
 		seen := map[string]string{}
